@@ -441,6 +441,12 @@ func genStorageHistory(r *rand.Rand) []stOp {
 			names = append(names, t)
 		}
 	}
+	if r.Intn(3) == 0 && len(names[0]) <= 49 {
+		// a name that is the SPELLING of another name's storage key (the hexadecimal form of its bytes, with or without
+		// the suffix of the key): names and keys are different things
+		h := fmt.Sprintf("%x", names[0])
+		names = append(names, [][]byte{[]byte(h), []byte(h + ".entity"), []byte(strings.ToUpper(h))}[r.Intn(3)])
+	}
 	n := 1 + r.Intn(60)
 	last := map[string]int{}
 	var ops []stOp
